@@ -10,7 +10,7 @@ use crate::Ctx;
 use pushr::push::random::CodeGenerator;
 use pushr::push::state::PushState;
 
-const SPARS: [f32; 13] = [0.0, 0.01, 0.1, 0.25, 0.5, 0.75, 0.99, 1.0, -0.1, 1.1, f32::NAN, f32::INFINITY, f32::NEG_INFINITY];
+const SPARS: [f32; 19] = [0.0, 0.01, 0.1, 0.25, 0.5, 0.75, 0.99, 1.0, -0.1, 1.1, f32::NAN, f32::INFINITY, f32::NEG_INFINITY, 1.004, 1.0000001, -0.004, -1.0e-7, 0.004, 0.996];
 
 fn valid_sp(s: f32) -> bool {
     s >= 0.0 && s <= 1.0
@@ -214,7 +214,7 @@ pub fn run(ctx: &mut Ctx) {
     }
     // ---- vector RAND instructions (operand order as documented) and NAME.RANDBOUNDNAME ---------
     for size in [-1, 0, 1, 2, 7, 30] {
-        for variant in 0..12 {
+        for variant in 0..SPARS.len().max(12) {
             case += 1;
             if !ctx.mine(case) {
                 continue;
